@@ -106,9 +106,13 @@ func c02exec(c *h.Ctx, cs *h.Case) {
 		}
 		f.cl.Overlay(ct.srv).Process(env)
 	}
+	var conjured []*fix.Rec
 	defer func() {
 		if rec != nil {
 			rec.Tni.Done()
+		}
+		for _, r := range conjured {
+			r.Tni.Done()
 		}
 	}()
 	show := func(ds []fix.Delivery) string {
@@ -250,6 +254,73 @@ func c02exec(c *h.Ctx, cs *h.Case) {
 			if !bad && (ty == 3 || ty == 4) && !delivered[v] {
 				cs.Fail("honest-not-delivered", fmt.Sprintf("honest plain message %d (sender %s over its own connection) was not delivered", v, tk[4]))
 			}
+		case len(tk) == 6 && tk[1] == "relay":
+			// c02 relay self:<R> <type> <node j> <value>: a member Z makes the receiving server R create an instance for
+			// node j (an honest message over Z's own connection whose DESTINATION token names j: TransmitMsg does not ask
+			// whether R hosts j); that instance — honest protocol code — then sends to the receiving node, which R hosts
+			ty, _ := strconv.Atoi(tk[3])
+			j, _ := strconv.Atoi(tk[4])
+			v, _ := strconv.Atoi(tk[5])
+			if j-10 < 0 || j-10 >= len(nodes) || nodes[j-10] == ct.target {
+				cs.Impl = append(cs.Impl, "bad-op")
+				continue
+			}
+			peer := strconv.Itoa(ct.srv)
+			bad := c02bad(f, nodes, tk[4], peer)
+			sentBy[v] = sent{tk[4], peer, bad, ty}
+			tokJ := fix.TokenFor(ct.t, nodes[j-10], round)
+			recJ := fix.RecOf(tokJ)
+			if recJ == nil {
+				zi := -1
+				for i := range nodes {
+					if i != ct.srv && i != j-10 {
+						zi = i
+					}
+				}
+				if zi < 0 {
+					zi = j - 10 // a tree of two nodes: the member conjures an instance for its own node on R
+				}
+				env, err := fix.Envelope(f.cl.SI(zi), fix.TokenFor(ct.t, nodes[zi], round), tokJ, fix.Payload(3, 1000000+v))
+				if err != nil {
+					panic(err)
+				}
+				f.cl.Overlay(ct.srv).Process(env)
+				if recJ = fix.RecOf(tokJ); recJ == nil {
+					cs.Impl = append(cs.Impl, "no-instance")
+					cs.Fail("no-instance", "no instance was created for the node the destination token names")
+					return
+				}
+				conjured = append(conjured, recJ)
+			}
+			if err := recJ.Tni.SendTo(ct.target, fix.Payload(ty, v)); err != nil {
+				cs.Impl = append(cs.Impl, "send-failed")
+				cs.Fail("send-failed", err.Error())
+				return
+			}
+			for dl := time.Now().Add(5 * time.Second); f.cl.Servers[ct.srv].VerifRoutines() > 0 && time.Now().Before(dl); time.Sleep(100 * time.Microsecond) {
+			}
+			barrier++
+			bi := 0
+			if isRoot {
+				bi = 1
+			}
+			inject(9, strconv.Itoa(10+bi), strconv.Itoa(bi), barrier)
+			if rec == nil {
+				rec = fix.RecOf(to)
+			}
+			if rec == nil {
+				cs.Impl = append(cs.Impl, "no-instance")
+				cs.Fail("no-instance", "no instance was created for the honest barrier message")
+				return
+			}
+			select {
+			case <-rec.SyncCh:
+			case <-time.After(10 * time.Second):
+				cs.Impl = append(cs.Impl, "hang")
+				cs.Fail("hang", "barrier not handled within 10 s after "+op)
+				return
+			}
+			cs.Impl = append(cs.Impl, show(rec.Drain()))
 		case len(tk) == 2 && tk[1] == "treearrives":
 			if !parked {
 				cs.Impl = append(cs.Impl, "ok")
@@ -687,6 +758,43 @@ func c02gen(c *h.Ctx, yield func(*h.Case)) {
 							yield(cs)
 						}
 					}
+				}
+			}
+		}
+	}
+	// an instance on the receiving server R itself, conjured by a member for a node R does not host (the destination
+	// token of an honest message names it), sends to the receiving node: every node of the tree as the conjured one,
+	// then the honest messages completing the batch
+	for _, root := range []bool{false, true} {
+		for _, k := range []int{1, 2, 3} {
+			n, srv, first := k+2, 1, 2
+			if root {
+				n, srv, first = k+1, 0, 1
+			}
+			for ty := 1; ty <= 4; ty++ {
+				for j := 0; j < n; j++ {
+					if j == srv {
+						continue
+					}
+					cs := &h.Case{Class: fmt.Sprintf("relay ty=%d", ty)}
+					cs.Ops = append(cs.Ops, cfg(root, k))
+					if r.Intn(2) == 0 {
+						val++
+						cs.Ops = append(cs.Ops, fmt.Sprintf("c02 msg %d %d %d %d", 3+r.Intn(2), 10+first, first, val))
+					}
+					val++
+					cs.Ops = append(cs.Ops, fmt.Sprintf("c02 relay self:%d %d %d %d", srv, ty, 10+j, val))
+					for i := 0; i < k; i++ {
+						val++
+						cs.Ops = append(cs.Ops, fmt.Sprintf("c02 msg %d %d %d %d", ty, 10+first+i, first+i, val))
+					}
+					if r.Intn(2) == 0 {
+						val++
+						cs.Ops = append(cs.Ops, fmt.Sprintf("c02 relay self:%d %d %d %d", srv, 1+r.Intn(4), 10+j, val))
+					}
+					c.Count("class=relay")
+					c.Count("sender=" + classify(strconv.Itoa(10+j), strconv.Itoa(srv)))
+					yield(cs)
 				}
 			}
 		}
